@@ -566,7 +566,8 @@ func generateExample(sub *SubcommandData, svc string) {
 	for _, f := range sub.Flags {
 		ex += " --" + f.Name + " " + f.Example
 	}
-	sub.Example = ex
+	// The example is rendered inside raw string literals.
+	sub.Example = strings.ReplaceAll(ex, "`", "`+\"`\"+`")
 }
 
 // fieldCode generates code to initialize the data structures fields
